@@ -70,6 +70,11 @@ class Address:
         if len(args) == 1:
             self.decode_address(args[0])
         elif len(args) == 2:
+            if not isinstance(args[0], int):
+                raise TypeError("integer network required")
+            if (args[0] < 0) or (args[0] >= 65535):
+                raise ValueError("network out of range")
+
             self.decode_address(args[1])
             if self.addrType == Address.localStationAddr:
                 self.addrType = Address.remoteStationAddr
